@@ -127,11 +127,18 @@ orc_run(void *arg)
 	vs_window(0);
 	vs_settle();
 	orc_send(3);
-	for (int i = 0; i < 3; i++) {
+	// drain until two consecutive rounds bring nothing (each receive may release the next
+	// message of a back-pressured pipeline only after the library has run)
+	for (int i = 0, idle = 0; i < 24 && idle < 2; i++) {
 		nng_msg *m;
+		int      n = 0;
 		vs_settle();
-		while (nng_recvmsg(orc_rx, &m, NNG_FLAG_NONBLOCK) == 0)
+		while (nng_recvmsg(orc_rx, &m, NNG_FLAG_NONBLOCK) == 0) {
 			orc_take(m);
+			n++;
+			vs_settle();
+		}
+		idle = n ? 0 : idle + 1;
 		vs_sleep(5);
 	}
 	vs_nontrivial();
